@@ -69,6 +69,11 @@ def build(desc, s, w, ctx):
                 inner = w.fn("fmapfn%d" % li, p.get("script"), default=(("retarg",),))
 
                 def fn(x):
+                    if p.get("inner_submit"):
+                        # the function hands further work to the base executor and returns THAT (pending) future: the flat-mapped
+                        # inner future of the property text; its callable logs `ucall innerwork<li>` when it starts
+                        inner(x)
+                        return ctx.delegate.submit(w.fn("innerwork%d" % li, [[("ret", x)]]))
                     return f_return(inner(x))
                 return fn
             ex = FlatMapExecutor(ex, mk(), name=nm)
